@@ -1,6 +1,9 @@
 //! rverif: executes scenario families against the real ractor code and records traces.
 //! All policy (what to validate, verdicts) lives in /verif/tools.
+mod cluster2;
 mod explore;
+mod fam_clusterelect;
+mod fam_remoteactor;
 mod fam_lifecycle;
 mod fam_mailbox;
 mod fam_mailbox_t;
@@ -60,6 +63,8 @@ fn main() {
         fam_mailbox_t::dispatch,
         fam_lifecycle::dispatch,
         fam_pg::dispatch,
+        fam_clusterelect::dispatch,
+        fam_remoteactor::dispatch,
     ];
     for f in fams {
         if let Some(summary) = f(&cmd, &a) {
